@@ -377,8 +377,8 @@ def run(ctx):
     built = ctx.build(extra_targets=["theories/Model/Insert.v"])
     thorough = ctx.tier == "thorough"
     maxlen = 4 if thorough else 3
-    budget = 40000 if thorough else 4000
-    nrand = 3000 if thorough else 300
+    budget = 20000 if thorough else 4000
+    nrand = 2000 if thorough else 300
     vrate = 0.05
     ctx.extra["rule"] = (f"every shipped rule x words of length <= {maxlen} over the rule's names + one foreign name (all of them when "
                          f"#words x #names <= {budget}, else all of length <= 1 + a seeded sample) x every name + one foreign name as the "
@@ -401,8 +401,10 @@ def run(ctx):
         exhaustive += full
         cands = list(range(len(alphabet)))
         codes, allowed = impl_queries(rname, alphabet, words, cands)
+        # the property quantifies over every shipped rule: a missed restoration is a violation
+        # whether or not the rule satisfies the side condition of the theorem
         judge(ctx, rname, rj, sp, rname in MIXED, names, alphabet, words, cands, codes, allowed,
-              py_insert_ok(sp), vrate, stats)
+              True, vrate, stats)
         cases.append(coq_icase(f"(rule_named rules {cstr(rname)})", alphabet, words, cands))
         wants.append(coq_iout(codes, allowed))
         meta.append({"rule": rname, "alphabet": alphabet, "words": words, "codes": codes, "allowed": allowed, "children": rj[1]})
